@@ -56,4 +56,28 @@ def Linked (g : MG Name) (s t : List Var) : Prop :=
 def SameComponent (g : MG Name) (sets : List (List Var)) (s t : List Var) : Prop :=
   ReflTransGen (fun a b => a ∈ sets ∧ b ∈ sets ∧ Linked g a b) s t
 
+/-! ### Def. 4.2 in full: the conditioned variables -/
+
+/-- `m = ‖x‖` for any variable of the conditioning set (a variable without subscripts is its own minimisation) -/
+def MinimisedTo (g : MG Name) (x m : Var) : Prop :=
+  (x.ivs = [] ∧ m = x) ∨ (x.ivs ≠ [] ∧ IsMinimised g x m)
+
+/-- `n ∈ X_*(W_t) = V(‖X_*‖ ∩ An(W_t))`: the vertex of a minimised conditioned variable that is a member of `An(W_t)` -/
+def CondVertex (g : MG Name) (cond : List Var) (root : Var) (n : Name) : Prop :=
+  ∃ x ∈ cond, ∃ m, MinimisedTo g x m ∧ (∃ w, IsCtfAncestor g root w ∧ SameVar m w) ∧ m.name = n
+
+/-- first pass of Def. 4.2: the two sets share a graph vertex -/
+def Overlap (s t : List Var) : Prop := ∃ a ∈ s, ∃ b ∈ t, a.name = b.name
+
+/-- closure of `Overlap` over the input sets -/
+def OverlapClass (sets : List (List Var)) (s t : List Var) : Prop :=
+  ReflTransGen (fun a b => a ∈ sets ∧ b ∈ sets ∧ Overlap a b) s t
+
+/-- second pass of Def. 4.2: a bidirected edge of `G` joins a vertex of one set to a vertex of the other -/
+def BiAdjacent (g : MG Name) (s t : List Var) : Prop := ∃ a ∈ s, ∃ b ∈ t, g.BiEdge a.name b.name
+
+/-- closure of `BiAdjacent` over the input sets -/
+def BiClass (g : MG Name) (sets : List (List Var)) (s t : List Var) : Prop :=
+  ReflTransGen (fun a b => a ∈ sets ∧ b ∈ sets ∧ BiAdjacent g a b) s t
+
 end Y0.Ctf
